@@ -121,18 +121,25 @@ impl Bank {
         ];
         Bank { runners, born: Instant::now(), fed: 0 }
     }
-    /// feed one hostile frame to every analyzer; Err = (analyzer, panic message)
-    pub fn feed(&mut self, frame: &[u8]) -> Result<(), (String, String)> {
+    /// feed one hostile frame to every analyzer; Ok = bit mask of the analyzers that reported
+    /// something for it; Err = (analyzer, panic message)
+    pub fn feed(&mut self, frame: &[u8]) -> Result<u32, (String, String)> {
         self.fed += 1;
-        for (name, r) in self.runners.iter_mut() {
+        let mut mask = 0u32;
+        for (i, (name, r)) in self.runners.iter_mut().enumerate() {
             stash(name, frame);
             let res = r.feed(scenario::T0, frame);
             unstash();
-            if let Err(p) = res {
-                return Err((name.to_string(), p));
+            match res {
+                Err(p) => return Err((name.to_string(), p)),
+                Ok(lines) => {
+                    if !lines.is_empty() {
+                        mask |= 1 << i;
+                    }
+                }
             }
         }
-        Ok(())
+        Ok(mask)
     }
 }
 
@@ -355,7 +362,16 @@ fn stream_targets(ctx: &mut Ctx, r: &mut Rng, data: &[u8]) {
             }
         }};
     }
-    call!("parse_tls_client_hello", { let _ = huginn_net_tls::parse_tls_client_hello(data); });
+    {
+        stash("parse_tls_client_hello", data);
+        let res = guard(|| huginn_net_tls::parse_tls_client_hello(data));
+        unstash();
+        ctx.eval();
+        match res {
+            Err(p) => fail(ctx, "parse_tls_client_hello", p),
+            Ok(r) => ctx.bucket(&format!("streams/parse_tls_client_hello/{}", match r { Ok(Some(_)) => "hello", Ok(None) => "other-record", Err(_) => "error" })),
+        }
+    }
     call!("parse_tls_client_hello_ja4", { let _ = huginn_net_tls::parse_tls_client_hello_ja4(data); });
     let chunks: Vec<usize> = (0..r.usize(5)).map(|_| r.usize(data.len() + 1)).collect();
     call!("TlsClientHelloReader::add_bytes", {
@@ -368,7 +384,19 @@ fn stream_targets(ctx: &mut Ctx, r: &mut Rng, data: &[u8]) {
         // a reader that saw hostile bytes and is reset must work like a new one
         rd.reset();
     });
-    call!("HttpProcessors::parse_request", { let p = HttpProcessors::new(); let _ = p.parse_request(data); let _ = p.parse_response(data); });
+    {
+        stash("HttpProcessors::parse_request", data);
+        let res = guard(|| {
+            let p = HttpProcessors::new();
+            (p.parse_request(data).map(|r| r.matching.version), p.parse_response(data).map(|r| r.matching.version))
+        });
+        unstash();
+        ctx.eval();
+        match res {
+            Err(p) => fail(ctx, "HttpProcessors::parse_request", p),
+            Ok((a, b)) => ctx.bucket(&format!("streams/HttpProcessors/request={a:?}/response={b:?}")),
+        }
+    }
     call!("Http1Parser", { let p = Http1Parser::new(); let _ = p.parse_request(data); let _ = p.parse_response(data); });
     call!("Http2Parser", {
         let p = Http2Parser::new();
@@ -466,10 +494,16 @@ struct FrameStage<'a> {
 
 fn hostile_frame(ctx: &mut Ctx, st: &mut FrameStage, frame: &[u8]) {
     ctx.eval();
-    if let Err((who, p)) = st.bank.feed(frame) {
-        ctx.judge(false, &[], "panic while analysing a frame", || json!({"analyzer": who, "panic": p, "frame_hex": hex(frame), "stage": st.tag}));
-        st.bank = Bank::fresh();
-        return;
+    match st.bank.feed(frame) {
+        Err((who, p)) => {
+            ctx.judge(false, &[], "panic while analysing a frame", || json!({"analyzer": who, "panic": p, "frame_hex": hex(frame), "stage": st.tag}));
+            st.bank = Bank::fresh();
+            return;
+        }
+        Ok(mask) => {
+            // outcome class: which analyzers still produced a result for the hostile frame
+            ctx.bucket(&format!("frames/{}/reported-by-{:07b}", st.tag, mask));
+        }
     }
     st.since_probe += 1;
     // poison check: every 64 hostile frames, and a fresh bank before the TTLs could matter
